@@ -37,7 +37,7 @@ META = {
     "C06": dict(
         technique="information-flow (taint) of raise conditions into the discriminating exception handler; must-evaluate rule for the type comparison; re-use of the C02 decision table",
         text="Shows that whether the type-vs-role comparison runs cannot depend on anything under untrusted['signatures']: the raise conditions of every exception the discriminating handler catches are propagated through callee summaries into the caller's access paths and must not mention an element of the signature map (this is exactly defect D2); on every accepting path where the signed part is well-formed delegating metadata the comparison was evaluated against the signed type; at every call of a verifier the signature mode is not computed from the envelope's unsigned signature map.",
-        note="Monotonicity under removal of non-counting entries additionally relies on the C02 decision table, re-evaluated here.",
+        note="Monotonicity under removal of non-counting entries additionally relies on the C02 decision table, and 'valid signatures alone' on the soundness rules of C01; both rule sets are re-evaluated here.",
         ref="5 C06",
     ),
     "C04": dict(
@@ -48,7 +48,7 @@ META = {
     ),
     "C08": dict(
         technique="event/term matching on walked paths of writer, loader and in-place signers (effective open modes, json.load hooks, store targets); custom rules",
-        text="Structural half of persistence: the writer writes exactly canonserialize(metadata) once, in binary mode, to the named file, serializing before opening; the loader returns json.load(open(fname,'rb')) with default hooks, unmodified (also not changed in place); a writer that stages the bytes in another file and moves it onto the name with os.replace is accepted; the writer fails through the serializer or the file system only; every in-place signer stores only under ['signatures'] of the document and writes back the value it loaded to the path it loaded it from; callers of the in-memory signers do not drop the signatures already present.",
+        text="Structural half of persistence: the writer writes exactly canonserialize(metadata) once, in binary mode, to the named file, serializing before opening; the loader returns json.load(open(fname,'rb')) with default hooks, unmodified (also not changed in place); a writer that stages the bytes in another file and moves it onto the name with os.replace is accepted; the writer fails through the serializer or the file system only; every in-place signer stores only under ['signatures'] of the document and writes back the value it loaded to the path it loaded it from; callers of the in-memory signers do not drop the signatures already present; the interactive session saves the envelope it signed.",
         note="Partial: json.load(canonserialize(x)) == x and the resulting invariance of verdicts are properties of CPython's json module given these facts; not decided here.",
         ref="5 C08",
     ),
@@ -78,13 +78,13 @@ META = {
     ),
     "C09": dict(
         technique="term-level matching of the wrap return value, the single store of sign_signable (target, value, ordering after the grammar check), interprocedural write set, sibling writer/reader agreement, exact accept gate",
-        text="wrap_as_signable returns a fresh two-field dict with a deep copy under a JSON-type gate and refuses nothing but values that are not of a JSON type; sign_signable performs exactly one store, under hex(raw public key of the given private key), of {'signature': hex(sign(canonserialize(signable['signed'])))}, after the entry passed the grammar, and writes nothing else (so other signers' entries are untouched and order cannot matter); it fails only through validation of its arguments or a step of the signing pipeline; signer and verifier agree on serializer/field/codec/filing; the accept gate is exactly len(counted) >= threshold and the verifier's argument checks reject nothing the signer can produce (C02's rules re-run).",
+        text="wrap_as_signable returns a fresh two-field dict with a deep copy under a JSON-type gate and refuses nothing but values that are not of a JSON type; sign_signable performs exactly one store, under hex(raw public key of the given private key), of {'signature': hex(sign(canonserialize(signable['signed'])))}, after the entry passed the grammar, and writes nothing else (so other signers' entries are untouched and order cannot matter); it fails only through validation of its arguments or a step of the signing pipeline; signer and verifier agree on serializer/field/codec/filing; the accept gate is exactly len(counted) >= threshold, the verifier's argument checks reject nothing the signer can produce (C02's rules re-run) and nothing but valid signatures by authorized keys counts (C01's rules re-run).",
         note="Partial: determinism/idempotence of Ed25519 and 'a changed payload stops verifying' are crypto-library facts (A2).",
         ref="5 C09",
     ),
     "C11": dict(
         technique="symbolic walk of sign_all_in_repodata over the loaded document term: event ordering (reset before inserts), per-section loop store matching, sibling-loop agreement, write-set and write-back pairing",
-        text="For every repodata document: the signatures section is reset before any insert; both packages and packages.conda are iterated; each iteration stores exactly {hex(pub of signing key): {'signature': hex(sign(canonserialize(that artifact's metadata)))}} under the artifact's name; nothing else in the document is written; the same value is written back canonically to the same path; the entry shape is the one the envelope verifier reads; the functions the signer reaches print ASCII-safe text only (a progress line with an artifact name cannot abort the run).",
+        text="For every repodata document: the signatures section is reset before any insert; both packages and packages.conda are iterated; each iteration stores exactly {hex(pub of signing key): {'signature': hex(sign(canonserialize(that artifact's metadata)))}} under the artifact's name; nothing else in the document is written; the same value is written back canonically (the writer writes exactly canonserialize(document)) to the same path; the entry shape is the one the envelope verifier reads; the functions the signer reaches print ASCII-safe text only (a progress line with an artifact name cannot abort the run).",
         note="Client-side acceptance of each reconstructed envelope additionally relies on C01/C02/C05; value-level idempotence ('signing again changes nothing') follows from determinism of Ed25519 (A2).",
         ref="5 C11",
     ),
@@ -120,7 +120,7 @@ META = {
     ),
     "C13": dict(
         technique="exception-escape analysis (path-sensitive fact propagation + conditional summaries) over an ast-resolved program; call-graph acyclicity; custom rules",
-        text="Static exception-escape analysis of all 24 public validators and 5 verifiers on every control-flow path: the escape set of each is within the documented families, named rejections carry the named classes, no while/recursion/mutated-iterable loops. Holds for every input because values are abstracted to guard facts; a new unguarded subscript, narrowed handler, assert-as-validation or foreign raise is reported with its call chain.",
+        text="Static exception-escape analysis of all 24 public validators and 5 verifiers on every control-flow path: the escape set of each is within the documented families, named rejections carry the named classes, no while/recursion/mutated-iterable loops; a junk signature entry cannot end verify_signable with an error of its own (C02-R1 re-run) and every version mismatch is refused by verify_root (C03's rules re-run). Holds for every input because values are abstracted to guard facts; a new unguarded subscript, narrowed handler, assert-as-validation or foreign raise is reported with its call chain.",
         note="Not decided: recursion-depth and size limits (A4, A5); behaviour under adversarial dunder methods (A3).",
         ref="5 C13, 3.3-3.5",
     ),
